@@ -150,10 +150,11 @@ template<class T> static void symbolize(typename T::Set& s, int i)
 }
 // pre-state: NV+1 elements added with concrete placeholder data, number 1 removed (its predecessor inherits the space, the
 // last one is renumbered to 1), then all data symbolic
-template<class T> static void build(typename T::Set& s)
+template<class T> static void build(typename T::Set& s, bool reserve = true)
 {
    // per-element arrays reserved up to the capacity (what reMax() does), so that they are not reallocated later
-   s.scaleExp.reMax(CAP); T::reserve(s);
+   // (not for the addptr obligations: there the exact extent of the scaleExp array matters)
+   if(reserve) { s.scaleExp.reMax(CAP); T::reserve(s); }
    for(int i = 0; i < NV + 1; ++i)
    {
       NZT m[NZ]; SV v; placeholder(v, m, SZ[i]);
@@ -265,7 +266,7 @@ extern "C" void h_lpcol_add_obj() { t_add<ColT>(2, 3); t_add<ColT>(3, 1); vp_cov
 // Two elements are added this way, then element 0 is removed: every element keeps its data.
 template<class T> static void t_addptr(int keyed, int sz0, int sz1)
 {
-   typename T::Set s(CAP, MEM); build<T>(s);
+   typename T::Set s(CAP, MEM); build<T>(s, false);
    Ref r; snap<T>(s, r);
    int sz[2] = {sz0, sz1};
    double val[2][NZ]; int idx[2][NZ]; double a[2], b[2], c[2]; DataKey k[2];
